@@ -224,7 +224,7 @@ func main() {
 		}
 		return
 	}
-	n := 80
+	n := 200
 	if o.Thorough() {
 		n = 2500
 	}
